@@ -83,84 +83,94 @@ Proof. exact inspect_roundtrip. Qed.
 Print Assumptions c18_inspect_roundtrip.
 
 (* ---- inspect's file-kind heuristic (commands/inspect.py _detect_file_format) and the early return ---- *)
-(* the decision table of the fixed-width score: the date indicator (>= 3 of the first 20 lines start with
-   MM/DD/YYYY followed by two blanks) together with long uniform lines or >= 3 lines ending in a blank + amount *)
+(* csv.reader (used by the delimited-table guard) is library code: csvcount stands for "the field count of every
+   row csv.reader yields for these lines" (None = csv.Error); every theorem holds for EVERY such function. *)
+Definition csv_counter := list string -> option (list nat).
+
+(* the decision table: the date indicator (>= 3 of the first 20 lines start with MM/DD/YYYY followed by two
+   blanks) together with long uniform lines or >= 3 lines ending in a blank + amount -- unless the file is a
+   delimited table *)
 Theorem c18_fixed_width_decision :
-  forall all_lines : list string,
-    is_fixed_width all_lines =
+  forall (csvcount : csv_counter) (all_lines : list string),
+    is_fixed_width csvcount all_lines =
     (Nat.leb 3 (count_if date2_prefix (firstn 20 all_lines))
-     && (uniform_long (firstn 20 all_lines) || Nat.leb 3 (count_if amt_at_end (firstn 20 all_lines))))%bool.
+     && (uniform_long (firstn 20 all_lines) || Nat.leb 3 (count_if amt_at_end (firstn 20 all_lines)))
+     && negb (looks_delimited csvcount all_lines))%bool.
 Proof. exact fixed_width_decision. Qed.
 Print Assumptions c18_fixed_width_decision.
 
-(* Full statement: for a file every line of which is a comma-delimited record with >= 3 cells and whose header
-   row is auto-detectable, inspect reports the detected columns and suggests their format string.
-   FALSE of the faithful model (= the code): a CSV whose date cells read "01/02/2025  Thu" (a layout
-   parse_generic_csv supports) with right-aligned amounts is scored fixed-width and inspect returns early. *)
+(* Full statement (a theorem about the tree since the fix "inspect no longer reports a comma-delimited file as
+   fixed-width").  It covers exactly the files for which looks_delimited holds: the non-blank, non-comment lines
+   among the first 20 of the sample, with thousands separators (a comma between a digit and three digits)
+   removed, are split by csv.reader into rows that all have the same number, at least 3, of fields.  For every
+   such file with an auto-detectable header row, whatever its cells look like, inspect reports the detected
+   columns and suggests a format string that parses back to them.
+   History: before the fix a CSV with "01/02/2025  Thu" dates and right-aligned amounts was scored fixed-width
+   (finding C18/csv-with-two-blank-dates-reported-fixed-width, now "fixed").  Ragged files (rows with differing
+   field counts) are not delimited tables in this sense and are still subject to the score. *)
 Definition c18_csv_is_reported_statement : Prop :=
-  forall (all_lines : list string) (d : detected),
-    all_lines <> [] ->
-    (forall l, In l all_lines -> 3 <= length (split_comma l)) ->
-    auto_detect (split_comma (hd "" all_lines)) = Some d ->
-    inspect_report all_lines (split_comma (hd "" all_lines)) = RDetected d (suggest d).
-
-Definition c18_fixed_width_witness : list string :=
-  ["Date,Ref,Description,Amount"; "01/02/2025  Thu,R1,ACME, 10.50"; "01/03/2025  Fri,R2,BOLT, 11.50";
-   "01/04/2025  Sat,R3,CAFE, 12.50"].
-
-Theorem c18_csv_is_reported_refuted : ~ c18_csv_is_reported_statement.
-Proof.
-  intros H.
-  assert (H1 : c18_fixed_width_witness <> []) by discriminate.
-  assert (H2 : forall l, In l c18_fixed_width_witness -> 3 <= length (split_comma l)).
-  { intros l Hl. unfold c18_fixed_width_witness in Hl.
-    repeat (destruct Hl as [<-|Hl]; [vm_compute; repeat constructor|]). contradiction. }
-  assert (H3 : auto_detect (split_comma (hd "" c18_fixed_width_witness)) =
-               Some {| a_date := 0; a_date_format := detect_date_format; a_desc := 2; a_amount := 3; a_loc := None |})
-    by (vm_compute; reflexivity).
-  specialize (H _ _ H1 H2 H3).
-  assert (E : inspect_report c18_fixed_width_witness (split_comma (hd "" c18_fixed_width_witness)) = RFixedWidth)
-    by (vm_compute; reflexivity).
-  rewrite E in H. discriminate H.
-Qed.
-Print Assumptions c18_csv_is_reported_refuted.
-
-(* What holds, for EVERY file and header row: unless the fixed-width score fires, inspect reports exactly what
-   auto-detection finds and the string it suggests parses back to those columns (end to end). *)
-Theorem c18_inspect_end_to_end_partial :
-  forall (fparse : formatter) (all_lines headers : list string) (d : detected),
-    is_fixed_width all_lines = false -> auto_detect headers = Some d ->
-    inspect_report all_lines headers = RDetected d (suggest d) /\
+  forall (csvcount : csv_counter) (fparse : formatter) (all_lines headers : list string) (d : detected),
+    looks_delimited csvcount all_lines = true ->
+    auto_detect headers = Some d ->
+    inspect_report csvcount all_lines headers = RDetected d (suggest d) /\
     exists sp, parse_format fparse (suggest d) None = Ok sp /\
       f_date sp = a_date d /\ f_date_format sp = a_date_format d /\ f_desc sp = Some (a_desc d) /\
       f_amount sp = a_amount d /\ f_loc sp = a_loc d /\ f_neg sp = false /\ f_abs sp = false /\
       f_custom sp = [] /\ f_extra sp = [].
-Proof. exact inspect_end_to_end. Qed.
-Print Assumptions c18_inspect_end_to_end_partial.
 
-(* computable guards under which the score cannot fire: fewer than 3 of the first 20 lines start with a
-   date + two blanks; in particular no line contains two consecutive blanks *)
-Theorem c18_not_fixed_width_partial :
-  forall all_lines : list string,
-    (count_if date2_prefix (firstn 20 all_lines) < 3 \/ (forall l, In l all_lines -> has_two_blanks l = false)) ->
-    is_fixed_width all_lines = false.
-Proof. intros l [H|H]; [now apply few_dates_not_fixed|now apply no_two_blanks_not_fixed]. Qed.
-Print Assumptions c18_not_fixed_width_partial.
+Theorem c18_csv_is_reported : c18_csv_is_reported_statement.
+Proof. exact (fun csvcount fparse => csv_is_reported fparse csvcount). Qed.
+Print Assumptions c18_csv_is_reported.
+
+(* For EVERY file and header row: unless the fixed-width verdict fires, inspect reports exactly what
+   auto-detection finds and the string it suggests parses back to those columns (end to end). *)
+Theorem c18_inspect_end_to_end :
+  forall (csvcount : csv_counter) (fparse : formatter) (all_lines headers : list string) (d : detected),
+    is_fixed_width csvcount all_lines = false -> auto_detect headers = Some d ->
+    inspect_report csvcount all_lines headers = RDetected d (suggest d) /\
+    exists sp, parse_format fparse (suggest d) None = Ok sp /\
+      f_date sp = a_date d /\ f_date_format sp = a_date_format d /\ f_desc sp = Some (a_desc d) /\
+      f_amount sp = a_amount d /\ f_loc sp = a_loc d /\ f_neg sp = false /\ f_abs sp = false /\
+      f_custom sp = [] /\ f_extra sp = [].
+Proof. exact (fun csvcount fparse => inspect_end_to_end fparse csvcount). Qed.
+Print Assumptions c18_inspect_end_to_end.
+
+(* computable guards under which the verdict cannot fire, also for files that are not delimited tables:
+   fewer than 3 of the first 20 lines start with a date + two blanks; no line contains two consecutive blanks *)
+Theorem c18_not_fixed_width :
+  forall (csvcount : csv_counter) (all_lines : list string),
+    (looks_delimited csvcount all_lines = true \/ count_if date2_prefix (firstn 20 all_lines) < 3 \/
+     (forall l, In l all_lines -> has_two_blanks l = false)) ->
+    is_fixed_width csvcount all_lines = false.
+Proof.
+  intros c l [H|[H|H]];
+    [now apply delimited_not_fixed|now apply few_dates_not_fixed|now apply no_two_blanks_not_fixed].
+Qed.
+Print Assumptions c18_not_fixed_width.
+
+Definition c18_fixed_width_witness : list string :=
+  ["Date,Ref,Description,Amount"; "01/02/2025  Thu,R1,ACME, 10.50"; "01/03/2025  Fri,R2,BOLT, 1,234.50";
+   "01/04/2025  Sat,R3,CAFE, 12.50"].
+(* what csv.reader answers on the (thousands-stripped) lines used below *)
+Definition ex_csvcount : csv_counter := fun ls =>
+  if list_eq_dec string_dec ls (table_lines c18_fixed_width_witness) then Some [4; 4; 4; 4]
+  else if list_eq_dec string_dec ls ["01/02/2025  PURCHASE      -1234.00  5000.00"; "01/03/2025  COFFEE           -4.50  4995.50";
+                                     "01/04/2025  PAYROLL        2000.00  6995.50"] then Some [1; 1; 1]
+  else None.
 
 Example c18_example_file_kind :
-  let f := ["Date,Ref,Description,Amount"; "01/02/2025 08:15,R1,ACME, 10.50"; "01/03/2025 08:15,R2,BOLT, 11.50";
-            "01/04/2025 08:15,R3,CAFE, 12.50"] in
-  is_fixed_width f = false /\ (forall l, In l f -> has_two_blanks l = false) /\
-  count_if amt_at_end f = 3 /\
-  inspect_report f (split_comma (hd "" f)) =
+  fw_score c18_fixed_width_witness = 3 /\
+  table_lines c18_fixed_width_witness =
+    ["Date,Ref,Description,Amount"; "01/02/2025  Thu,R1,ACME, 10.50"; "01/03/2025  Fri,R2,BOLT, 1234.50";
+     "01/04/2025  Sat,R3,CAFE, 12.50"] /\
+  looks_delimited ex_csvcount c18_fixed_width_witness = true /\
+  inspect_report ex_csvcount c18_fixed_width_witness (split_comma (hd "" c18_fixed_width_witness)) =
     RDetected {| a_date := 0; a_date_format := detect_date_format; a_desc := 2; a_amount := 3; a_loc := None |}
               ("{date:" ++ detect_date_format ++ "}, {_}, {description}, {amount}") /\
-  fw_score c18_fixed_width_witness = 3.
-Proof.
-  cbv zeta. split; [vm_compute; reflexivity|]. split.
-  { intros l Hl. repeat (destruct Hl as [<-|Hl]; [vm_compute; reflexivity|]). contradiction. }
-  repeat split; vm_compute; reflexivity.
-Qed.
+  (* a text statement (no field separators once thousands commas are ignored) is still fixed-width *)
+  inspect_report ex_csvcount ["01/02/2025  PURCHASE      -1,234.00  5,000.00"; "01/03/2025  COFFEE           -4.50  4,995.50";
+                              "01/04/2025  PAYROLL        2,000.00  6,995.50"] [] = RFixedWidth.
+Proof. repeat split; vm_compute; reflexivity. Qed.
 
 (* ---- non-vacuity ---- *)
 (* what CPython's parser answers on the templates used below *)
